@@ -31,7 +31,10 @@ IsJwe(e) == e \in JweEntries
 JT == {"absent", "str_ok", "str_bad", "int_pos", "int_zero", "int_neg", "int_big", "float", "true", "false", "null",
        "list_empty", "list_str", "list_mixed", "list_nested", "obj_empty", "obj_ok", "obj_bad", "deep"}
 SegClasses == {"bad_alphabet", "len1mod4", "empty", "nonascii", "padded", "whitespace", "other_valid"}
-EpkClasses == {"absent", "str_unknown", "str_otherkty", "str_badb64", "str_shortb64", "int", "list", "null", "obj", "list_nested", "list_obj", "bool", "float", "deep"}
+\* table_value: every well-formed value the member's own table lists (all eight key_ops values, both uses, every kty and crv
+\* name), alone and next to the members it is cross-checked against
+EpkClasses == {"absent", "str_unknown", "str_otherkty", "str_badb64", "str_shortb64", "int", "list", "null", "obj", "list_nested", "list_obj", "bool", "float", "deep",
+               "table_value"}
 
 CommonMembers == {"alg", "kid", "typ", "cty", "jku", "jwk", "x5c", "crit", "unknown"}
 JwsMembers == CommonMembers \cup {"b64"}
@@ -96,6 +99,7 @@ Native(s, c) ==
     [] s.kind = "epk" /\ s.name = "crv" /\ c \in {"str_unknown", "str_otherkty"} -> "KeyError"
     [] s.kind = "epk" /\ c \in {"int", "list", "null", "obj", "list_nested", "list_obj", "bool", "float"} -> "TypeError"
     [] s.kind = "epk" /\ c = "deep" -> "RecursionError"
+    [] s.kind = "epk" /\ c = "table_value" /\ s.name \in {"use", "key_ops", "kty", "crv"} -> "KeyError"      \* a lookup table that lacks the row
     [] s.kind = "inner" /\ s.name = "deflate" /\ c \in {"corrupt", "truncated", "short"} -> "zlib.error"
     [] s.kind = "json_shape" /\ c \in {"list", "str", "int", "null", "list_of_nondict"} -> "TypeError"
     [] s.kind = "segment" -> "binascii.Error"          \* a ValueError already
